@@ -38,6 +38,7 @@ def _prof(name: str) -> Prof:
             {
                 'prem': Prof(symbol=1, svar=False, mu=False, metavars=1, subst=True, mv_cfgs=((0, 0, 0, 0), (1, 0, 0, 0))),
                 'prem_nt': Prof(symbol=0, svar=False, mu=False, app=False, metavars=1, notations=(P.bot, P.neg, P._and, P._or)),
+                'prem_and': Prof(symbol=0, svar=False, mu=False, app=False, exists=False, metavars=0, notations=(P._and, P._or)),
                 'small': Prof(symbol=1, svar=False, mu=False, metavars=1),
                 'val': Prof(symbol=0, metavars=2, mu=False, app=False),
                 'schem': Prof(symbol=0, svar=False, mu=False, metavars=2, subst=True, mv_cfgs=((0, 0, 0, 0), (1, 0, 0, 0))),
@@ -229,6 +230,9 @@ def levels(tier: str) -> list[dict]:
             for n in ([1, 2] if q else [1, 3]):
                 # non-implication premises
                 L.append(dict(label=f'gen/{it}/{pn}/n={n}', module=M, fn='h_gen', kwargs=dict(n=n, prof=pn, interp=it), budget_s=bud, required=True, twin=False))
+        for n in (5, 7) if q else (5, 7, 9):
+            L.append(dict(label=f'gen/{it}/prem_and/n={n}', module=M, fn='h_gen', kwargs=dict(n=n, prof='prem_and', interp=it), budget_s=bud, required=n <= 5, twin=False))
+            L.append(dict(label=f'mp/{it}/prem_and/n={n}', module=M, fn='h_mp', kwargs=dict(n=n, m=1, prof='prem_and', interp=it), budget_s=bud, required=n <= 5, twin=False))
         for pn in ('schem', 'schem_nt'):
             for n in ([1, 2, 3] if q else [1, 2, 3, 4]):
                 L.append(dict(label=f'inst/{it}/{pn}/n={n}', module=M, fn='h_inst', kwargs=dict(n=n, m=1 if q else 2, prof=pn, interp=it), budget_s=bud, required=n <= 3, twin=(n == 2)))
